@@ -545,6 +545,9 @@ class ParameterSpace(DesignSpace):
             self.uncertain_variables.remove(name)
             if self.uncertain_variables:
                 self.build_joint_distribution()
+            else:
+                # There is no more random variable: no more joint distribution.
+                self.distribution = None
         super().remove_variable(name)
 
     def compute_samples(
